@@ -67,6 +67,7 @@ func runE1(r *eng.Run, sp e1Spec, D, K, maxStates int) e1Result {
 	wb := whitebox()
 	expanding := true
 	visit := func(w []byte) (string, bool) {
+		eng.Beat(w)
 		a := ref.RunSat(w, sp.digSat)
 		cfg, implAlive := "-", false
 		orig := append([]byte(nil), w...)
@@ -274,6 +275,7 @@ func stringShapeFamily() [][]byte {
 func runFamily(r *eng.Run, name, entry string, inputs [][]byte, check func(w []byte, a *ref.PDA) (string, bool, string, string)) int {
 	for _, in := range inputs {
 		w := eng.Exact(in)
+		eng.Beat(w)
 		a := ref.Run(w)
 		var bad, exp, got string
 		var of bool
